@@ -9,7 +9,7 @@ from manifest_text import TEXT, HOOK_COMMITS, NOT_APPLICABLE, ENGINES
 props = [json.loads(l)['id'] for l in open(os.path.join(ROOT, 'properties.jsonl'))]
 checks = []
 for pid in props:
-    if pid not in CHECKS:
+    if pid not in CHECKS or pid not in TEXT:
         continue
     t = TEXT[pid]
     c = {
@@ -26,7 +26,7 @@ for pid in props:
     checks.append(c)
 na = []
 for pid in props:
-    if pid not in CHECKS:
+    if pid not in CHECKS or pid not in TEXT:
         na.append({'property_id': pid, 'reason': NOT_APPLICABLE.get(pid, 'no check registered yet: harness not built in this revision of /verif')})
 m = {
     'version': 1,
